@@ -98,11 +98,11 @@ OWN_FIELD = {"User": "age", "Node": "id", "Named": "name", "U": "__typename"}
 ROOT_FIELD = {"User": "user", "Node": "node", "Named": "named", "U": "u"}
 
 
-def fragment_graphs(n_frag, type_sets, nested_variants=(False, True), names=None):
+def fragment_graphs(n_frag, type_sets, nested_variants=(False, True), names=None, subsets=False):
     """All DAGs over F1..Fn (edges i->j only for i<j), each fragment typed from `type_sets`.
     `names` (optional) renames F1..Fn, so that alphabetical order and dependency order can disagree.
     Yields dict(name, doc_text, ops, frag_types, edges, nested, tags)."""
-    for g in _fragment_graphs(n_frag, type_sets, nested_variants):
+    for g in _fragment_graphs(n_frag, type_sets, nested_variants, subsets):
         if names:
             # two-step rename through placeholders (names may themselves be a permutation of F1..Fn)
             txt = g["doc_text"]
@@ -114,7 +114,7 @@ def fragment_graphs(n_frag, type_sets, nested_variants=(False, True), names=None
         yield g
 
 
-def _fragment_graphs(n_frag, type_sets, nested_variants=(False, True)):
+def _fragment_graphs(n_frag, type_sets, nested_variants=(False, True), subsets=False):
     idx = list(range(1, n_frag + 1))
     all_edges = [(i, j) for i in idx for j in idx if i < j]
     k = 0
@@ -136,7 +136,14 @@ def _fragment_graphs(n_frag, type_sets, nested_variants=(False, True)):
                             else:
                                 parts.append(f"...F{b}")
                         frs.append(f"fragment F{i} on {t} {{ {' '.join(parts)} }}")
-                    for rootcfg in ("one", "two_ops", "one_plus_second"):
+                    subset_cfgs = []
+                    if subsets and n_frag >= 3:
+                        # one selection set spreading a SUBSET of the fragments side by side (e.g. both ends of a chain but not the middle)
+                        for r2 in range(2, n_frag + 1):
+                            for sub in itertools.combinations(idx, r2):
+                                if sub != (1,):
+                                    subset_cfgs.append("subset:" + "".join(map(str, sub)))
+                    for rootcfg in ["one", "two_ops", "one_plus_second"] + subset_cfgs:
                         name = f"G{k}"
                         t1 = types[0]
                         ops = [f"query {name}A {{ {ROOT_FIELD[t1]} {{ ...F1 }} }}"]
@@ -148,11 +155,13 @@ def _fragment_graphs(n_frag, type_sets, nested_variants=(False, True)):
                         elif rootcfg == "one_plus_second" and n_frag >= 2:
                             t2 = types[-1]
                             ops[0] = f"query {name}A {{ {ROOT_FIELD[t1]} {{ ...F1 }} y: {ROOT_FIELD[t2]} {{ ...F{n_frag} }} }}"
+                        elif rootcfg.startswith("subset:"):
+                            ops[0] = f"query {name}A {{ {ROOT_FIELD[t1]} {{ " + " ".join(f"...F{i}" for i in rootcfg[7:]) + " } }"
                         elif rootcfg != "one":
                             continue
                         k += 1
                         yield dict(name=name, doc_text="\n".join(ops + frs) + "\n", ops=opnames, frag_types=types, edges=edges,
-                                   nested=nested, tags={f"frags:{n_frag}", f"edges:{len(edges)}", f"root:{rootcfg}",
+                                   nested=nested, tags={f"frags:{n_frag}", f"edges:{len(edges)}", f"root:{rootcfg}" if not rootcfg.startswith("subset:") else "root:subset",
                                                         "nested_spread" if nested else "direct_spread"} | {f"ftype:{t}" for t in types})
 
 
